@@ -556,6 +556,7 @@ fn alphabet(tier: &str) -> Vec<Op> {
         Op::Exec { m: 0, arg: 6, funds: 999, stranger: false, inst: 0 },
         Op::Inst { v: 3, label: None, admin: true, funds: 0, stranger: false, salt: Some(b""), again: 0 },
         Op::Inst { v: 3, label: None, admin: false, funds: 999, stranger: false, salt: None, again: 0 },
+        Op::Inst { v: 6, label: Some("  spaced label "), admin: false, funds: 0, stranger: false, salt: None, again: 0 },
         Op::Inst { v: 4, label: Some("L"), admin: true, funds: 0, stranger: false, salt: None, again: 1 },
         Op::Inst { v: 4, label: None, admin: true, funds: 0, stranger: false, salt: None, again: 2 },
         Op::Inst { v: 4, label: Some("L"), admin: false, funds: 0, stranger: false, salt: None, again: 3 },
